@@ -22,6 +22,12 @@ type Script struct {
 
 var Scripts = map[string]*Script{}
 
+// ScriptTrace makes scripted runs record a readable trace (kept in LastScriptSim).
+var (
+	ScriptTrace   bool
+	LastScriptSim *Sim
+)
+
 func regScript(s *Script) { Scripts[s.Name] = s }
 
 func scriptScenario(n int, amev int64) *Scenario {
@@ -40,6 +46,8 @@ func newManualSim(sc *Scenario) *Sim {
 	var zero [nStreams][]uint64
 	s := NewSim(sc, NewReplayTape(zero))
 	s.manual = true
+	s.record = ScriptTrace
+	LastScriptSim = s
 	for _, n := range s.nodes {
 		n.boot()
 	}
@@ -194,6 +202,94 @@ func init() {
 		s.nodeOf(1).scriptCrashSends = 2 // the first proposal reaches validators 0 and 2 only
 		s.AddOracle(NewOracleC09(s))
 		s.Run()
+		return s.viol
+	}})
+	// L2: the dBFT 2.0 commit lock across views - one validator that forgets its state
+	// (it asked for view 1, restarts, and commits in view 0) splits the honest ones.
+	regScript(&Script{Name: "L2_stall_commit_lock_across_views", Prop: "C09", Class: "stall_commit_lock_across_views", Run: func() *Violation {
+		sc := scriptScenario(4, -1)
+		sc.Family = "gst"
+		sc.Start = 5 // height 6: validator 2 is the primary of view 0, validator 1 of view 1
+		sc.Fault[1] = FAmnesia
+		sc.GST = 0
+		sc.Delta = int64(time.Millisecond)
+		sc.Heights = 3
+		sc.MaxTime = 400 * int64(sc.TPB)
+		sc.MaxEvents = 1000000
+		sc.SyncEvery = int64(sc.TPB)
+		s := newManualSim(sc)
+		s.AddOracle(NewOracleC09(s))
+		n0, n1, n2, n3 := s.nodeOf(0), s.nodeOf(1), s.nodeOf(2), s.nodeOf(3)
+		timeout := func(n *Node) {
+			s.now += int64(time.Millisecond)
+			h, v := n.d.BlockIndex, n.d.ViewNumber
+			n.call(&Step{Op: OpTimeout, TH: h, TV: v}, func() { n.d.OnTimeout(h, v) })
+		}
+		// validator 2 (primary) has proposed at Start; its proposal is still in flight.
+		// The backups time out: first recovery requests (nobody heard anybody yet) ...
+		timeout(n0)
+		timeout(n1)
+		timeout(n3)
+		for _, n := range []*Node{n0, n1, n3} {
+			rr := s.sent(n, dbft.RecoveryRequestType)
+			if rr == nil {
+				return nil
+			}
+			for _, m := range []*Node{n0, n1, n3} {
+				if m != n {
+					s.give(m, rr)
+				}
+			}
+		}
+		// ... then, having heard from each other, change-view requests for view 1
+		timeout(n0)
+		timeout(n1)
+		timeout(n3)
+		cv0, cv1, cv3 := s.sent(n0, dbft.ChangeViewType), s.sent(n1, dbft.ChangeViewType), s.sent(n3, dbft.ChangeViewType)
+		if cv0 == nil || cv1 == nil || cv3 == nil {
+			return nil
+		}
+		// the proposal arrives late at 1 and 3; being view-changing does not stop them from
+		// answering; with their two responses the primary commits in view 0
+		req := s.sent(n2, dbft.PrepareRequestType)
+		if req == nil {
+			return nil
+		}
+		s.give(n1, req)
+		s.give(n3, req)
+		r1, r3 := s.sent(n1, dbft.PrepareResponseType), s.sent(n3, dbft.PrepareResponseType)
+		if r1 == nil || r3 == nil {
+			return nil
+		}
+		s.give(n2, r1)
+		s.give(n2, r3)
+		if s.sent(n2, dbft.CommitType) == nil {
+			return nil
+		}
+		// validators 0 and 3 collect the three change-view requests and move to view 1
+		s.give(n0, cv1)
+		s.give(n0, cv3)
+		s.give(n3, cv0)
+		s.give(n3, cv1)
+		// validator 1 restarts with empty state and is brought back into view 0 by the primary
+		n1.crash()
+		n1.boot()
+		timeout(n2) // the committed primary resends its state as a recovery message
+		if rm := s.sent(n2, dbft.RecoveryMessageType); rm != nil {
+			s.give(n1, rm)
+		}
+		// from here on the network is synchronous and fault-free
+		s.manual = false
+		for i := range s.nodes {
+			s.after(sc.SyncEvery+int64(i), &Event{Kind: EvSyncPoll, Node: i})
+		}
+		s.loop()
+		s.st.SimTime = s.now
+		for _, o := range s.oracles {
+			if s.viol == nil {
+				o.AtEnd(s)
+			}
+		}
 		return s.viol
 	}})
 }
